@@ -37,17 +37,18 @@ class Opened(Exception):
     pass
 
 
-def install_fs(x, rec):
+def install_fs(x, rec, root=None):
     counter = [0]
+    root = root or ROOT
 
     def isfile(path):
         rec.append(path)
         comps = PR.components(path)
         if len(comps) <= 2 and PR.inside([], path):
             # an ancestor of (or equal to) /w/r is a directory
-            root = PR.components(ROOT)
+            rootc = PR.components(root)
             anc = True
-            for a, b in zip(comps, root):
+            for a, b in zip(comps, rootc):
                 if len(a) != len(b) or not And(*[p == q for p, q in
                                                  zip(a, b)]):
                     anc = False
@@ -82,14 +83,20 @@ def check_paths(x, rec, roots, what):
 
 def include(x, p):
     n = p['n']
-    body = sym_path(x, 'path', n, './rxa')
+    body = p.get('prefix', '').encode() + sym_path(x, 'path', n, './rxa')
     ext = x.choice('ext', [b'.lua', b'.p8', b'.p8.png'])
     tab = x.choice('tab', [b'', b':1'])
     line = b'#include ' + body + ext + tab + b'\n'
     rec = []
-    install_fs(x, rec)
+    root = p.get('root', ROOT)
+    install_fs(x, rec, root)
     cart, cwd = p.get('cart', '/w/r/c.p8'), p.get('cwd', '/w/r')
     hx.patch(x, os, 'getcwd', lambda: cwd)
+    if p.get('carts'):
+        # a (short) PICO-8 carts folder: carts below it have it as include
+        # root, carts next to it in a directory that merely shares its name
+        # prefix have their own directory
+        hx.set_attr(x, p8, 'PICO8_CART_PATHS', list(p['carts']))
     err = None
     try:
         out = list(p8.process_includes([line], filename=cart))
@@ -108,7 +115,7 @@ def include(x, p):
     # a relative path handed to the OS is resolved against the working
     # directory
     rec = [r if r[:1] == '/' else cwd + '/' + r for r in rec]
-    check_paths(x, rec, [ROOT], 'every path probed or opened for #include '
+    check_paths(x, rec, [root], 'every path probed or opened for #include '
                 'lies under the include root')
 
 
@@ -149,7 +156,13 @@ HARNESSES = [
     Harness('include', include, quick=[dict(Q, n=n) for n in (1, 2, 3, 4)] +
             [dict(Q, n=3, cart=c, cwd=d) for c, d in (
                 ('c.p8', '/w/r'), ('./c.p8', '/w/r'), ('r/c.p8', '/w'),
-                ('../r/c.p8', '/w/q'))],
+                ('../r/c.p8', '/w/q'))] +
+            [dict(Q, n=3, prefix='../', cart='/w/rx/c.p8', cwd='/w/rx',
+                  root='/w/rx', carts=['/w/r']),
+             dict(Q, n=3, prefix='../', cart='/w/r/a/c.p8', cwd='/w/r/a',
+                  root='/w/r', carts=['/w/r']),
+             dict(Q, n=4, cart='/w/r/c.p8', cwd='/w/r', root='/w/r',
+                  carts=['/w/r'])],
             thorough=[dict(Q, n=n, _budget=3000) for n in (1, 2, 3, 4, 5, 6,
                                                           7)]),
     Harness('require', require,
